@@ -151,7 +151,8 @@ let spec_ruis cap progs rets final =
       for i = 0 to cap - 1 do
         if (mask lsr i) land 1 = 1 then begin
           let cands = List.filter (fun e -> e.idx = i && e.d = d && e.a0 <= r.p && e.rec_start = inf && (e.b2 = inf || e.b2 >= r.start)) eps in
-          match List.rev cands with
+          (* at most one episode of an index is live at a time: the earliest one not yet ended is the one taken *)
+          match cands with
           | e :: _ -> e.rec_start <- r.start; e.b1 <- min e.b1 r.start; e.b2 <- (if e.b2 = inf then r.p else max e.b2 r.p)
           | [] ->
             (* a cell populated by an acquire(d) that then returned IsLocked (leaked cell of a locked set) *)
@@ -167,6 +168,10 @@ let spec_ruis cap progs rets final =
       if r.tag = 1 then begin
         if r.pay >= cap then fail (Printf.sprintf "thread %d acquired index %d >= capacity %d" r.t r.pay cap);
         if lock_hi < r.p then fail (Printf.sprintf "thread %d acquired index %d after the set was locked" r.t r.pay);
+        (* an acquire whose owner id was recovered (by a recover call that began before it returned) holds
+           nothing: recover on a live owner is outside recover's contract, the harness does it on purpose *)
+        let void = (match r.e with Some e -> e.rec_start <= r.p | None -> false) in
+        if not void then
         List.iter (fun e -> if e.idx = r.pay && e.a1 < r.p && r.p <= e.b1 then
           fail (Printf.sprintf "index %d handed out to thread %d while thread %d owns it" r.pay r.t e.th)) eps
       end else if r.tag = 0 && r.pay = 0 then begin
